@@ -18,6 +18,10 @@ var (
 	// (a tuning knob: with the default of 256 KiB only files larger than that
 	// ever make the window slide).
 	ReadWindowFunc func(blockLength, v int32) int32
+	// BlockLengthFunc, if non-nil, replaces the delta block length chosen for
+	// a file (a tuning knob: with the minimum of 700 bytes only files of many
+	// kilobytes ever consist of more than a few blocks).
+	BlockLengthFunc func(fileLen int64, v int32) int32
 )
 
 func Seed(v int32) int32 {
@@ -37,6 +41,13 @@ func Listeners(l []net.Listener) []net.Listener {
 func ReadWindow(blockLength, v int32) int32 {
 	if ReadWindowFunc != nil {
 		return ReadWindowFunc(blockLength, v)
+	}
+	return v
+}
+
+func BlockLength(fileLen int64, v int32) int32 {
+	if BlockLengthFunc != nil {
+		return BlockLengthFunc(fileLen, v)
 	}
 	return v
 }
